@@ -87,7 +87,7 @@ def classify(src, o, extra=None):
 
 
 INVALID_SNIPPETS = [
-    "x = (1 +\n\n\n 2) 3\n", "[a,\n\n b for b in c]\n", "f(a for a in b, c)\n", "x = 1 +\n", "def f(:\n  pass\n", "if x\n    y\n", "for x in:\n pass\n", "a = = b\n", "print 'x'\n", "x = [1, 2\ny = 3\n",
+    "x = (1 +\n\n\n 2) 3\n", "class A\n", "x = f(a, b) c\n", "x = {1: 2, (a, bbbbbbbbbbbbbbbbbbbbbbbbbbbbbbbbbbb)}\n", "d = {a: 1, (b, ccccccccccccccccccccccccccccc) 2}\n", "f(a, (b, cccccccccccccccccccccc) d)\n", "[a,\n\n b for b in c]\n", "f(a for a in b, c)\n", "x = 1 +\n", "def f(:\n  pass\n", "if x\n    y\n", "for x in:\n pass\n", "a = = b\n", "print 'x'\n", "x = [1, 2\ny = 3\n",
     "class A\n    pass\n", "import\n", "from . import\n", "f(**a, *b)\n", "f(a=1, b)\n", "(a, b) += 1\n", "a + 1 = 2\n", "del f()\n", "for f() in x: pass\n", "with a as 1: pass\n", "x = {1: 2, 3}\n",
     "lambda x=1, y: 0\n", "def f(a=1, b): pass\n", "def f(*): pass\n", "def f(**k, a): pass\n", "try:\n    pass\n", "try:\n  pass\nexcept A, B:\n  pass\n", "else:\n  pass\n", "x = 'abc\n", "if a:\npass\n",
     "  x = 1\n", "if a:\n    b\n  c\n", "while True:\n\tx\n        y\n", "a ? b\n", "$(\n", "x = $\n", "f!(]\n", "f!(a) b\n", "with! a\n", "x = `abc\n", "match x:\n    case 1 | y | 2: pass\n", "match x:\n  case [a, *b, *c]: pass\n",
@@ -97,6 +97,25 @@ INVALID_SNIPPETS = [
     "x = 0777\n", "x = 1__0\n", "x = 0b12\n", "x = 1.2.3\n", "x = 1e\n", "x = '\\x'\n", "x = b'é'\n", "x = 1_\n", "x = 0_7\n", "x = 10**99999j +\n", "import a.b as\n", "from a import (b\n", "global\n", "nonlocal 1\n", "assert\n", "raise from x\n", "return = 1\n",
     "f'{x'\n", "f'{}'\n", "f'{x!z}'\n", "f'{x!}'\n", "f'{'\n", "f'}'\n", "f'{a b}'\n", "x = f'{lambda: 1}'\n",
 ]
+
+
+def spread(s: str) -> str:
+    out, depth, quote = [], 0, None
+    for i, ch in enumerate(s):
+        if quote:
+            if ch == quote:
+                quote = None
+        elif ch in "'\"":
+            quote = ch
+        elif ch in "([{":
+            depth += 1
+        elif ch in ")]}":
+            depth = max(0, depth - 1)
+        if ch == " " and depth > 0 and not quote and s[i - 1 : i] != " ":
+            out.append("\n" + " " * (12 + 7 * (len(out) % 4)))
+        else:
+            out.append(ch)
+    return "".join(out)
 
 
 def build_inputs(tier):
@@ -113,6 +132,18 @@ def build_inputs(tier):
     for s in INVALID_SNIPPETS:
         cases.append(("file", s, "file", None))
         cases.append(("file", "ok = 1\n\n" + s, "file", None))
+        cases.append(("file-nofinal", s.rstrip("\n"), "file", None))
+        cases.append(("nofinal", s.rstrip("\n"), "exec", None))
+        if "\n" not in s.rstrip("\n"):
+            # the construct as the LAST line of a longer text without final newline (errors at the very end of the text)
+            cases.append(("file-nofinal-last", "import os\n" + s.rstrip("\n"), "file", None))
+            cases.append(("nofinal-last", "import os\n" + s.rstrip("\n"), "exec", None))
+        # the same construct spread over several lines of very different lengths: every blank inside a bracket becomes
+        # a line break followed by a long indentation (positions computed from the wrong line fall outside it)
+        ml = spread(s)
+        if ml != s:
+            cases.append(("multiline", ml, "exec", None))
+            cases.append(("multiline-file", ml, "file", None))
     for s in ["class A[T]: pass\n", "type X = int\n", "try:\n  pass\nexcept* E:\n  pass\n", "def f[T](x): pass\n", "x = 1\ntype Y[T] = T\n"]:
         for v in [(3, 8), (3, 10), (3, 11)]:
             cases.append(("version", s, "exec", v))
